@@ -27,7 +27,7 @@ RULE = (
 )
 
 PROFILE = {
-    "atlas": dict(coll=("Jets", ["AntiKt4", "AK10"]), num=["pt", "eta", "nTrk"], vec=["weights", "sumPt"], sub=("constituents", ["pt", "d0", "nHits"]),
+    "atlas": dict(flat3=("constituents", "hitChi2s"), coll=("Jets", ["AntiKt4", "AK10"]), num=["pt", "eta", "nTrk"], vec=["weights", "sumPt"], sub=("constituents", ["pt", "d0", "nHits"]),
                   link=("parent", ["pt", "eta"]), nonnull=False, other=("Tracks", ["InDetTracks"], ["pt", "d0"])),
     "cms_aod": dict(coll=("Muons", ["muons", "muonsFromCosmics"]), num=["pt", "eta", "nSeg"], vec=["chi2s", "segments"], sub=None,
                     link=("globalTrack", ["pt", "eta"]), nonnull=True, other=("Tracks", ["generalTracks"], ["pt", "eta"])),
@@ -79,8 +79,22 @@ class G:
     def first_template(self, ev):
         s, ms = self.seq(ev)
         m = self.pick(ms)
-        how = self.d(st.integers(0, 4))
-        if how <= 1:
+        how = self.d(st.integers(0, 6))
+        flat3 = self.p.get("flat3")
+        if how == 5 and flat3 and ms is self.p["num"]:
+            # First() of a sequence flattened over three loops: its first-time flag and its empty-sequence test belong outside the outermost one
+            val = f"{s}.SelectMany(lambda f: f.{flat3[0]}()).SelectMany(lambda g: g.{flat3[1]}()).First()"
+            self.labels.add("First-over-three-loop-flattening")
+        elif how == 6:
+            # one lambda invoked twice around the partial operation: each invocation takes its own first element (and faults on its own empty sequence)
+            s2, ms2 = self.seq(ev)
+            m2 = self.pick([x for x in ms if x in ms2] or ms2)
+            if m2 in ms:
+                val = f"(lambda lead: lead({s}) + lead({s2}))(lambda fs: fs.Count() + fs.Select(lambda f: f.{m2}()).First())"
+                self.labels.add("First-in-lambda-invoked-twice")
+            else:
+                val = f"{s}.First().{m}()"
+        elif how <= 1 or how >= 5:
             val = f"{s}.First().{m}()"
         elif how == 2:
             val = f"{s}.Select(lambda f: f.{m}() * 2).First()"
